@@ -63,7 +63,7 @@ UserOp(op, arg) ==
 Init ==
     /\ tid \in 1..Len(Traces)
     /\ kind = R.kind /\ fs = St(1).fs
-    /\ opts = [ow |-> FALSE, chk |-> FALSE, cmp |-> FALSE, del |-> FALSE]
+    /\ opts = [ow |-> FALSE, chk |-> FALSE, cmp |-> FALSE, del |-> FALSE, part |-> FALSE]
     /\ rpc = "idle" /\ widx = 0 /\ cs = 0 /\ cph = "ap" /\ csub = "stale" /\ checkDone = FALSE /\ verified = FALSE
     /\ status = "none" /\ nruns = 0 /\ fs0 = fs /\ hazard = FALSE
     /\ pos = 1 /\ prop = "" /\ impl = ""
